@@ -17,6 +17,7 @@ import (
 	_ "time/tzdata"
 
 	"github.com/vapourismo/knx-go/knx/dpt"
+	"verif/harness/common"
 )
 
 // typeInfo is what the harness knows about one registered name.
@@ -244,4 +245,51 @@ func underZones(fn func(zone string)) (missing []string) {
 		fn(z)
 	}
 	return missing
+}
+
+// roundTripStorms: per main number, 8 goroutines (2..3 per registered type of it) decode two payloads each into their
+// own instances reps times and encode and render them, every result compared with what the same steps give alone
+// (c19Run, mode storm). fills: per goroutine class the two fill octets of its payloads. It returns the first failure,
+// the first type of the main number it occurred in, and the number of storms run.
+func roundTripStorms(types []typeInfo, fills [][]byte, reps int) (*common.Fail, string, int64) {
+	byMain := map[int][]typeInfo{}
+	var mains []int
+	for _, ti := range types {
+		if len(byMain[ti.Main]) == 0 {
+			mains = append(mains, ti.Main)
+		}
+		byMain[ti.Main] = append(byMain[ti.Main], ti)
+	}
+	var storms int64
+	for _, m := range mains {
+		plan := c19Plan{Mode: "storm"}
+		for gi := 0; gi < 8; gi++ {
+			ti := byMain[m][gi%len(byMain[m])]
+			n := ti.WireL
+			if n <= 0 {
+				n = 11
+			}
+			mk := func(fill byte) string {
+				p := make([]byte, n)
+				for i := range p {
+					p[i] = fill
+				}
+				p[0] = 0
+				if n == 1 {
+					p[0] = fill & 0x3f
+				}
+				if ti.WireL <= 0 {
+					p[n-1] = 0
+				}
+				return hx(p)
+			}
+			fl := fills[gi%len(fills)]
+			plan.Ops = append(plan.Ops, []c19Op{{Op: "produce", Name: ti.Name, H: reps}, {Op: "unpack", Hex: mk(fl[0])}, {Op: "unpack", Hex: mk(fl[1])}})
+		}
+		storms++
+		if f := common.Guard(func() *common.Fail { return c19Run(plan) }); f != nil {
+			return f, byMain[m][0].Name, storms
+		}
+	}
+	return nil, "", storms
 }
